@@ -288,8 +288,33 @@ class _Inliner:
         caller_names |= {a.arg for a in caller.args.args}
         body = [copy.deepcopy(s) for s in callee.body if not (isinstance(s, ast.Expr) and isinstance(s.value, ast.Constant))]
         same = {p for p, v in binds if isinstance(v, ast.Name) and v.id == p}
+        # accumulator idiom `acc = helper(acc, item)`: the helper's parameter is the caller's accumulator under another name -
+        # it takes the caller's name (no binding statements, the accumulator keeps one name across the loop)
+        if target_name is not None:
+            callee_names = _names(callee)
+            acc_ren = {p_: target_name for p_, v_ in binds if isinstance(v_, ast.Name) and v_.id == target_name and p_ != target_name
+                       and target_name not in callee_names}
+            if len(acc_ren) == 1:
+                body = [_Rename(acc_ren).visit(s) for s in body]
+                binds = [(acc_ren.get(p_, p_), v_) for p_, v_ in binds]
+                same = {p for p, v in binds if isinstance(v, ast.Name) and v.id == p}
+        # a parameter that is only read and receives a plain name of the caller is that name (no binding statement: a helper
+        # called twice in one caller would otherwise bind the same local twice)
+        assigned_ = {n.id for n in ast.walk(callee) if isinstance(n, ast.Name) and isinstance(n.ctx, (ast.Store, ast.Del))}
+        callee_locals = _names(callee)
+        direct = {p_: v_.id for p_, v_ in binds if p_ not in same and isinstance(v_, ast.Name) and p_ not in assigned_
+                  and p_ not in ("self", "cls") and (v_.id not in callee_locals or v_.id == p_)}
+        if direct:
+            body = [_Rename(direct).visit(s) for s in body]
+            binds = [(direct.get(p_, p_), v_) for p_, v_ in binds]
+            same = {p for p, v in binds if isinstance(v, ast.Name) and v.id == p}
         ren = {x: "%s__%s" % (x, callee.name.strip("_")) for x in _assigned(callee)
                if x in caller_names and x not in same and x not in ("self", "cls")}
+        # a local of the helper that has the name of something the call passes in is another variable: it gets its own name
+        params_ = {a.arg for a in callee.args.args + callee.args.kwonlyargs}
+        for x in assigned_ - params_:
+            if x in _names(call) and x != target_name:
+                ren.setdefault(x, "%s__%s" % (x, callee.name.strip("_")))
         if ren:
             body = [_Rename(ren).visit(s) for s in body]
         pre = []
@@ -367,7 +392,38 @@ class _Inliner:
             if any(isinstance(n, ast.Call) and self._is_call_of(n, cls, name) for n in self._own_exprs(s)):
                 s2 = self._subst_expr(s, caller, cls, name, callee, static)
                 if s2 is None:
-                    return None
+                    # a helper with statements, called as an argument of the statement's own call (`return F(a, helper(b))`,
+                    # the other arguments plain names / constants / attributes - nothing whose evaluation could be reordered):
+                    # its value gets a name first, then the statement reads as before
+                    top = s.value if isinstance(s, (ast.Return, ast.Assign, ast.Expr)) else None
+                    hoisted = None
+                    if isinstance(top, ast.Call) and not self._is_call_of(top, cls, name):
+                        nested = [a for a in list(top.args) + [k.value for k in top.keywords] if isinstance(a, ast.Call) and self._is_call_of(a, cls, name)]
+                        others = [a for a in list(top.args) + [k.value for k in top.keywords] if a not in nested]
+
+                        def plain(x):
+                            return isinstance(x, (ast.Name, ast.Constant)) or (isinstance(x, ast.Attribute) and plain(x.value))
+                        total = sum(1 for n in self._own_exprs(s) if isinstance(n, ast.Call) and self._is_call_of(n, cls, name))
+                        if len(nested) == 1 and total == 1 and all(plain(x) for x in others) and plain(top.func):
+                            tmp = "%s_value" % name.strip("_")
+                            if tmp not in _names(caller):
+                                asg = ast.copy_location(ast.Assign(targets=[ast.Name(id=tmp, ctx=ast.Store())], value=nested[0]), s)
+                                s3 = copy.deepcopy(s)
+                                top3 = s3.value
+                                idx = [i for i, a in enumerate(top.args) if a is nested[0]]
+                                if idx:
+                                    top3.args[idx[0]] = ast.Name(id=tmp, ctx=ast.Load())
+                                else:
+                                    for k3, k0 in zip(top3.keywords, top.keywords):
+                                        if k0.value is nested[0]:
+                                            k3.value = ast.Name(id=tmp, ctx=ast.Load())
+                                ast.fix_missing_locations(asg)
+                                ast.fix_missing_locations(s3)
+                                hoisted = self._rewrite_block([asg, s3], caller, cls, name, callee, static)
+                    if hoisted is None:
+                        return None
+                    out.extend(hoisted)
+                    continue
                 s = s2
             # nested blocks
             for fld in ("body", "orelse", "finalbody"):
@@ -511,6 +567,103 @@ def _canon_with(stmts, done, where):
     return out
 
 
+
+def _canon_call_memo(tree: ast.Module, done, where):
+    """A memo that lives for one call only reads like the computation itself:
+
+        if K not in M: M[K] = E          (M: a dict created empty in this function, or a parameter that is `None`/absent or
+        ... M[K] ...                         such a dict at every call site of this module)
+    ==>  ... E ...
+
+    A memo kept anywhere else (instance, class, module) is left alone - whether it may outlive what E depends on is what
+    the rules decide."""
+    funcs = {}
+    for cls_, f_ in _defs(tree):
+        funcs[(cls_, f_.name)] = f_
+
+    def empty_dict(v):
+        return (isinstance(v, ast.Dict) and not v.keys) or (isinstance(v, ast.Call) and isinstance(v.func, ast.Name) and v.func.id == "dict" and not v.args and not v.keywords)
+
+    def local_fresh(f, name):
+        binds = [n for n in ast.walk(f) if isinstance(n, (ast.Assign, ast.AnnAssign)) and any(
+            isinstance(t_, ast.Name) and t_.id == name for t_ in (n.targets if isinstance(n, ast.Assign) else [n.target]))]
+        return bool(binds) and all(n.value is not None and empty_dict(n.value) for n in binds) and name not in {a.arg for a in f.args.args + f.args.kwonlyargs}
+
+    def param_fresh(cls_, f, name):
+        args = f.args.args + f.args.kwonlyargs
+        if name not in {a.arg for a in args}:
+            return False
+        # inside: only `if M is None: M = {}` may rebind it
+        for n in ast.walk(f):
+            if isinstance(n, ast.Assign) and any(isinstance(t_, ast.Name) and t_.id == name for t_ in n.targets) and not empty_dict(n.value):
+                return False
+        idx = [a.arg for a in f.args.args].index(name) if name in [a.arg for a in f.args.args] else None
+        off = 1 if cls_ is not None and f.args.args and f.args.args[0].arg in ("self", "cls") else 0
+        ncalls = 0
+        for (c2, _), g in funcs.items():
+            for n in ast.walk(g):
+                if not (isinstance(n, ast.Call) and _Inliner._is_call_of(n, cls_, f.name)):
+                    continue
+                ncalls += 1
+                a = None
+                if idx is not None and idx - off < len(n.args):
+                    a = n.args[idx - off]
+                for kw in n.keywords:
+                    if kw.arg == name:
+                        a = kw.value
+                if a is None or (isinstance(a, ast.Constant) and a.value is None):
+                    continue
+                if not (isinstance(a, ast.Name) and local_fresh(g, a.id)):
+                    return False
+        # referenced otherwise than by a call (handed around): unknown callers
+        refs = sum(1 for n in ast.walk(tree) if (isinstance(n, ast.Attribute) and n.attr == f.name) or (isinstance(n, ast.Name) and n.id == f.name and isinstance(n.ctx, ast.Load)))
+        return ncalls > 0 and refs == ncalls
+
+    for (cls_, _), f in list(funcs.items()):
+        def walk_blocks(stmts):
+            i = 0
+            while i < len(stmts):
+                st = stmts[i]
+                hit = None
+                if isinstance(st, ast.If) and not st.orelse and len(st.body) == 1 and isinstance(st.body[0], ast.Assign) and len(st.body[0].targets) == 1 \
+                        and isinstance(st.test, ast.Compare) and len(st.test.ops) == 1 and isinstance(st.test.ops[0], ast.NotIn) \
+                        and isinstance(st.test.comparators[0], ast.Name):
+                    m_, k_ = st.test.comparators[0].id, st.test.left
+                    tg = st.body[0].targets[0]
+                    if isinstance(tg, ast.Subscript) and isinstance(tg.value, ast.Name) and tg.value.id == m_ and ast.dump(tg.slice) == ast.dump(k_) \
+                            and isinstance(k_, (ast.Name, ast.Constant)) and (local_fresh(f, m_) or param_fresh(cls_, f, m_)):
+                        hit = (m_, k_, st.body[0].value)
+                if hit is not None:
+                    m_, k_, e_ = hit
+                    rest = stmts[i + 1:]
+                    # the key and what E reads keep their meaning over the rest of the block (no rebinding)
+                    names = {n.id for n in ast.walk(e_) if isinstance(n, ast.Name)} | ({k_.id} if isinstance(k_, ast.Name) else set())
+                    rebound = any(isinstance(n, ast.Name) and isinstance(n.ctx, ast.Store) and n.id in names for r in rest for n in ast.walk(r))
+                    other_use = any(isinstance(n, ast.Name) and n.id == m_ and not (isinstance(getattr(n, "_p", None), ast.Subscript)) for r in rest for n in [])
+                    if not rebound:
+                        class S(ast.NodeTransformer):
+                            def visit_Subscript(self, n):
+                                self.generic_visit(n)
+                                if isinstance(n.ctx, ast.Load) and isinstance(n.value, ast.Name) and n.value.id == m_ and ast.dump(n.slice) == ast.dump(k_):
+                                    return ast.copy_location(copy.deepcopy(e_), n)
+                                return n
+                        new_rest = [S().visit(r) for r in rest]
+                        left = any(isinstance(n, ast.Name) and n.id == m_ for r in new_rest for n in ast.walk(r))
+                        if not left:
+                            stmts[i:] = new_rest
+                            for r in new_rest:
+                                ast.fix_missing_locations(r)
+                            done.append("%s:%s: per-call memo `%s` read as the computation it remembers" % (where, f.name, m_))
+                            continue
+                for fld in ("body", "orelse", "finalbody"):
+                    sub = getattr(st, fld, None)
+                    if isinstance(sub, list) and sub and isinstance(sub[0], ast.stmt):
+                        walk_blocks(sub)
+                for h in getattr(st, "handlers", []) or []:
+                    walk_blocks(h.body)
+                i += 1
+        walk_blocks(f.body)
+
 def undo_extractions(modules: Dict[str, object], known: Optional[set] = None) -> List[str]:
     """modules: name -> object with `.tree` (ast.Module). Returns a description of what was spliced back."""
     known = load_known() if known is None else known
@@ -523,6 +676,11 @@ def undo_extractions(modules: Dict[str, object], known: Optional[set] = None) ->
             n0 = len(done)
             f_.body = _canon_with(f_.body, done, "%s:%s" % (name, f_.name))
             if len(done) > n0:
+                _renumber(f_)
+        n1 = len(done)
+        _canon_call_memo(m.tree, done, name)
+        if len(done) > n1:
+            for cls_, f_ in _defs(m.tree):
                 _renumber(f_)
         for _ in range(3):
             inl = _Inliner(name, m.tree, known)
